@@ -4,7 +4,7 @@ import os
 PID = "C13"
 THEOREM_FILE = "Properties/C13.v"
 # group B theorems live in their own file (./check reads THEOREM_FILE; to be wired in by the maintainer)
-EXTRA_THEOREM_FILES = ["Properties/C13b.v"]
+EXTRA_THEOREM_FILES = ["Properties/C13b.v", "Properties/C13csv.v"]
 NEEDS_KNUT = True
 
 _HERE = os.path.dirname(os.path.abspath(__file__))
@@ -12,6 +12,8 @@ _HERE = os.path.dirname(os.path.abspath(__file__))
 # group B (revolut2, revolut, wise, swissquote, interactivebrokers: all modelled) registers the generator "C13b"
 # in harness/c13b.go; it is planned only when that file is present.  Importers not modelled: none.
 HAS_B = os.path.exists(os.path.join(_HERE, "..", "harness", "c13b.go"))
+# the reader tie C13.csv (Go's encoding/csv against Model/Csv.v)
+HAS_CSV = os.path.exists(os.path.join(_HERE, "..", "harness", "c13csv.go"))
 
 RULE = ("per importer (ch.swisscard2, ch.viac, ch.cumulus, ch.postfinance, ch.swisscard, ch.supercard) generated statements "
         "in the bank's format: 0-40 rows in either date order, dates across month/year ends and leap days, debits and "
@@ -46,7 +48,22 @@ RULE = ("per importer (ch.swisscard2, ch.viac, ch.cumulus, ch.postfinance, ch.sw
         "(<importer>_statement_wf resp. ibs_wf) and <importer>_statement_output resp. ibs_statement_output of the "
         "records is byte-identical to the binary's stdout; (c) is evaluated whatever (a) and (b) say.  Damaged statements "
         "(date, date format, amount, column count, currency/direction, account flag invalid or omitted) are compared with the model "
-        "only.")
+        "only.  "
+        "Reader (op C13.csv, generator C13csv, Model/Csv.v): 10^4 byte strings per quick run through Go's encoding/csv in-process "
+        "(a loop of Read until io.EOF or the first error) and through the extracted model csv_read_all: texts written by the "
+        "canonical writer (every field quoted), by Go's csv.Writer (LF and CRLF), grammar-directed texts (bare and quoted fields "
+        "with commas, quotes, doubled quotes, newlines, CR, CRLF, leading ASCII and Unicode white space, non-ASCII, invalid UTF-8, "
+        "NUL; blank, white and comment lines; every line ending incl. none and a lone CR at the end), damaged texts (a byte "
+        "deleted, a quote or separator inserted, text after a closing quote) and random bytes; settings: those of the importers "
+        "(7 of 10 cases) or free (Comma , ; tab | space :, Comment, FieldsPerRecord -1..4, LazyQuotes, TrimLeadingSpace, a few "
+        "invalid delimiters).  Records must be equal field by field, byte by byte, or the error class (bare-quote, quote, "
+        "field-count, invalid-delim) and the records read before it must be equal.  Spec on Go's result: every returned record has "
+        "the field count FieldsPerRecord demands (C13_csv_field_count); where the generator wrote records canonically under the "
+        "side conditions of C13_csv_roundtrip, the extracted csv_write of them is the text (verdict writer) and Go read back "
+        "exactly them (verdict roundtrip).  In every importer case of swisscard2, swisscard, cumulus, postfinance (after skip_bom, "
+        "Model/CsvImp.v: utfbom.SkipOnly), revolut2 (also the two-file cases), revolut, wise, swissquote, interactivebrokers the driver reads the statement's BYTES with the extracted "
+        "csv_items under that importer's settings (Model/CsvImp.v) and demands the reader items the harness recorded from Go "
+        "(verdict csv-records), so the importer model runs on what the model itself read.")
 TRUSTED_BASE = [
     "Coq 8.16.1 kernel",
     "extraction (ExtrOcamlBasic only), OCaml 4.13.1, drv_c13a.ml (decoding of the case line, rendering)",
@@ -54,10 +71,16 @@ TRUSTED_BASE = [
     "the generator's own row facts, the regular-expression reader of the printed journal and the `knut print` round trip -- these "
     "row readers are a second opinion now: the verdict `spec` for all six importers is the extracted Coq definition "
     "<importer>_statement_output (Spec/ImpStmtA.v) compared with stdout byte for byte, and does not depend on them",
-    "encoding/csv (Comma, LazyQuotes, TrimLeadingSpace, FieldsPerRecord as set by each importer), encoding/json "
-    "(json.Number), utfbom.SkipOnly and charmap.ISO8859_1 are NOT modelled: the model starts from the records/values "
-    "those readers delivered, which the harness obtains by running the same reader configuration (c13aReadItems cites "
-    "the importer source lines)",
+    "encoding/csv is modelled (Model/Csv.v; settings per importer in Model/CsvImp.v) and tied by op C13.csv; for swisscard2, "
+    "swisscard, cumulus and postfinance (utfbom.SkipOnly = skip_bom in Model/CsvImp.v) the reader items are re-derived from the "
+    "statement's bytes by the extracted model (verdict csv-records).  Still observed, not modelled: encoding/json (viac: "
+    "json.Number) and charmap.ISO8859_1 with FieldsPerRecord changed between calls of Read (supercard): for these two the model starts from "
+    "the records/values those readers delivered, which the harness obtains by running the same reader configuration "
+    "(c13aReadItems cites the importer source lines).  That the harness (c13aReadItems, c13bReadItems) and Model/CsvImp.v "
+    "use the settings the importer sets is by reading the importer source (lines cited in both)",
+    "Model/Csv.v restrictions: Comma/Comment ASCII (all importers), input from memory (no I/O error of the underlying reader), "
+    "line/column of a ParseError not modelled, nothing read after the first error; harness c13csv.go (generator, the Read loop, "
+    "the classification of the error by errors.Is) and drv_c13csv.ml (decoding, rendering, the field-count verdict)",
     "Go's time.Parse for the layouts 02.01.2006 and 2006-01-02, strings.TrimSpace/Trim/ReplaceAll/NewReplacer, regexp "
     "`\\d\\d.\\d\\d.\\d\\d\\d\\d` and `\\s+`, fmt.Sprintf/Println and decimal.NewFromString are hand-modelled in "
     "Model/ImpCommonA.v and tied to the code only by this correspondence",
@@ -68,7 +91,8 @@ TRUSTED_BASE = [
     "facts/assertions/opening holdings, the regular-expression reader of transactions, annotations and balance lines, the "
     "`knut print` round trip incl. the hand-formatted opening transaction) only for the verdicts print/rows, a second opinion: the "
     "verdict `spec` of all five importers is the extracted <importer>_statement_output (Spec/ImpStmtB.v, Spec/ImpSpecIB.v) compared "
-    "with stdout byte for byte; encoding/csv with each importer's configuration (c13bReadItems) is observed, not modelled; Go's "
+    "with stdout byte for byte; encoding/csv with each importer's configuration is modelled (Model/Csv.v, Model/CsvImp.v) and the "
+    "items of c13bReadItems are checked against the model's reading of the statement's bytes in every case (csv-records); Go's "
     "time.Parse for the layouts `2 Jan 2006`, `January 2, 2006`, `02-01-2006`, strings.Fields/Split/SplitN/NewReplacer, the regular "
     "expressions of revolut and interactivebrokers, decimal.Round and Decimal.String are hand-modelled in Model/ImpCommonB.v, "
     "Model/Imp/*.v, Model/Dec.v and tied to the code only by this correspondence",
@@ -76,7 +100,10 @@ TRUSTED_BASE = [
 ASSUMPTIONS = [
     "statement text is valid UTF-8 (ISO 8859-1 for supercard); currency and account names are ASCII",
     "decimal exponents stay small (no 1e999999999 amounts)",
-    "the theorems quantify over records, not over file bytes: CSV/JSON lexing is outside them",
+    "the importer theorems quantify over records; the step from file bytes to records is Model/Csv.v (C13_csv_total, "
+    "C13_csv_field_count, C13_csv_items_shape for every byte string; C13_csv_roundtrip / C13_csv_items_of_written for canonically "
+    "written statements) for the nine importers whose csv reader is modelled (postfinance after BOM skipping); JSON (viac) and ISO 8859-1 "
+    "decoding (supercard) stay outside",
     "group B: every account flag is given and non-empty (an empty flag yields a nil account; not generated); revolut2 and revolut "
     "statements list rows in the order in which the Balance column is a running balance (revolut2: completion order, one currency "
     "per day; revolut: newest first) - see findings/C13-revolut2-balances.md, findings/C13-revolut-balances.md; swissquote exchange "
@@ -87,7 +114,10 @@ TECHNIQUE = ("Coq proofs over hand-written Gallina models of all eleven importer
              "specification evaluated on the binary's output: for all eleven importers the extracted statement-level definition "
              "<importer>_statement_output (Spec/ImpStmtA.v, Spec/ImpStmtB.v, Spec/ImpSpecIB.v: row readings of the specification + "
              "posting.Builder + printer, proved to be what the command prints) compared with stdout, plus re-print through knut's own "
-             "parser and the harness' independent row facts as a second opinion")
+             "parser and the harness' independent row facts as a second opinion; + a Gallina model of Go's encoding/csv reader "
+             "(Model/Csv.v, following reader.go readLine/readRecord) with proofs of totality, field counts and the round trip "
+             "through the canonical writer, tied to encoding/csv in-process on 10^4 generated byte strings per run and used by the "
+             "drivers to re-derive the importers' records from the statement bytes")
 LEVEL_TEXT = ("C13_<importer>_faithful and C13_<importer>_end_to_end (Coq): for every list of well-formed rows the importer model emits exactly one "
               "single-booking transaction per booking row, in order, on the row's date, whose effect on the import account is "
               "the row's signed amount in the row's currency (viac: one price per non-zero daily value), and nothing else; "
@@ -126,8 +156,23 @@ LEVEL_TEXT = ("C13_<importer>_faithful and C13_<importer>_end_to_end (Coq): for 
               "X_fact / X_legs / X_text (revolut2: of the completed rows, then the assertions of the closing balances r2s_closings "
               "sorted by day and currency name; revolut: rvs_weave; wise: of ws_entries; swissquote: of sqs_entries) -- no hypothesis "
               "on the accounts being different is needed for these; C13b_books_determines: a transaction that books a row under the "
-              "row's text is the one booking_directive builds, so the transactions of the _faithful theorems are these.")
-LEVEL_NOTE = ("Trusted: kernel, extraction, the harness' generators and runner, Go's csv/json/charset readers (observed, not modelled), the "
+              "row's text is the one booking_directive builds, so the transactions of the _faithful theorems are these.  "
+              "Reader (Properties/C13csv.v, all at full strength): C13_csv_roundtrip: for every setting with valid delimiters and every "
+              "list of records whose fields contain arbitrary bytes, csv_read_all of csv_write (every field quoted, quotes doubled, "
+              "LF after each record) is exactly those records, provided no record is without fields (it would be an empty line; a "
+              "record of one empty field is fine), no field contains CR directly before LF (Go turns that pair into LF also inside "
+              "quotes; a lone CR or a CR at the end of a field is kept) and the field counts are what FieldsPerRecord demands "
+              "(negative: any; positive: that many; 0: all as many as the first) - each condition shown necessary by an Example; "
+              "C13_csv_total: on every byte string and setting the reader returns records, or the records before the first error and "
+              "one of ErrBareQuote, ErrQuote, ErrFieldCount, ErrInvalidDelim - never fuel exhaustion; C13_csv_field_count: every "
+              "returned record (also before an error) has at least one field and the required number; C13_csv_items_shape: what the "
+              "importer models take (records, then at most one failure item at the end) is what the reader model yields on any "
+              "file; C13_csv_items_of_written: for a canonically written statement the items are its records, so the importer "
+              "theorems speak about the bytes of that file.")
+LEVEL_NOTE = ("Trusted: kernel, extraction, the harness' generators and runner, Go's json/charset readers (observed, not modelled; "
+              "encoding/csv is modelled since ext-csv: Model/Csv.v, tied by C13.csv on 10^4 byte strings per run - 450 000 more with "
+              "three other seeds agreed - and by the verdict csv-records on every case of nine importers; model mutations `trailing "
+              "CR kept`, `U+3000 no space`, `closing quote at end of input needs LazyQuotes` give 156, 234 and 68 disagreements in 10^4), the "
               "printer model.  The verdict that the output is right is, for all eleven importers, an extracted Coq definition proved "
               "equal to what the importer model prints (C13_<importer>_stdout), evaluated on every generated well-formed statement "
               "(all of which satisfy the theorems' hypotheses: none of 1500 further statements per importer, other seeds, fell outside <importer>_statement_wf); the harness' row "
@@ -150,6 +195,8 @@ def plan(tier, seed):
     if HAS_B:
         p.append(("C13b", seed, n, []))
         p.append(("C13bfiles", seed, 40 if tier == "quick" else 2000, []))
+    if HAS_CSV:
+        p.append(("C13csv", seed, 10000 if tier == "quick" else 300000, []))
     return p
 
 
@@ -157,6 +204,8 @@ def search_plan(seed):
     p = [("C13a", seed + 100 + k, 300, []) for k in range(2)]
     if HAS_B:
         p += [("C13b", seed + 100 + k, 300, []) for k in range(2)]
+    if HAS_CSV:
+        p.append(("C13csv", seed + 100, 20000, []))
     return p
 
 
@@ -166,6 +215,10 @@ def _flags(c):
 
 def nontrivial(c):
     f = _flags(c)
+    if c.op == "C13.csv":
+        # at least two records read, one of them from a quoted field
+        o = c.observed or ""
+        return o.startswith("OK ") and o.count(";") >= 1 and "22" in c.input.split(" | ")[-1]
     if f.get("kind") != "wf":
         return False
     facts = f.get("facts", "-")
@@ -176,6 +229,13 @@ def distribution(cases):
     d = {}
     for c in cases:
         f = _flags(c)
+        if c.op == "C13.csv":
+            e = d.setdefault("csv", {})
+            for k in ("kind:" + f.get("kind", "?"), "outcome:" + (c.observed or "").split(" ", 1)[0],
+                      "lazy=%s trim=%s" % (f.get("lazy"), f.get("trim")), "fpr:" + ("neg" if f.get("fpr", "0").startswith("-") else "zero" if f.get("fpr") == "0" else "pos"),
+                      "roundtrip-checked" if f.get("exp", "-") != "-" else "no-exp"):
+                e[k] = e.get(k, 0) + 1
+            continue
         imp = f.get("imp", c.op)
         e = d.setdefault(imp, {"wf": 0, "mal": 0, "rows": 0, "OK": 0, "ERR": 0, "PANIC": 0, "newline_text": 0, "quote_in_output": 0})
         if f.get("note", "-") != "-":
